@@ -29,7 +29,7 @@ static void m_put(model_t *m, int name, int v, int uniq, int top) {
 /* index of the i-th entry in lookup order */
 static int lk(const model_t *m, int i) { return FWD ? i : m->n - 1 - i; }
 
-enum { OP_PUT, OP_REMOVE, OP_REMOVEOBJ, OP_SORT, OP_CLEAR };
+enum { OP_PUT, OP_REMOVE, OP_REMOVEOBJ, OP_SORT, OP_CLEAR, OP_IOFAIL };
 typedef struct { int kind, k, v; const char *label; } op_t;
 static op_t OPS[96]; static int NOPS;
 static const char *op_label(int op) { return OPS[op].label; }
@@ -72,6 +72,9 @@ static void refused_calls(qlisttbl_t *t, const char *after) {
 }
 static void observe(qlisttbl_t *t, const model_t *m, const char *after) {
     refused_calls(t, after);
+    /* the options chosen at construction are part of the state every later operation depends on */
+    if (t->unique != (bool)UNIQ || (t->namecmp == strcasecmp) != (bool)CASEI || t->inserttop != (bool)TOP || t->lookupforward != (bool)FWD)
+        vc_viol("multimap:options-changed", "after %s: options are unique=%d case-insensitive=%d inserttop=%d lookupforward=%d, constructed with %d %d %d %d", after, t->unique, t->namecmp == strcasecmp, t->inserttop, t->lookupforward, UNIQ, CASEI, TOP, FWD);
     if ((int)t->size(t) != m->n) vc_viol("multimap:size", "after %s: size() = %zu, model has %d entries", after, t->size(t), m->n);
     for (int q = 0; q < 4; q++) {   /* optional out-parameters omitted: same answers */
         int have = 0; for (int i = 0; i < m->n; i++) have |= CASEI ? !strcasecmp(NAMES[m->nm[i]], NAMES[q]) : !strcmp(NAMES[m->nm[i]], NAMES[q]);
@@ -181,6 +184,12 @@ static int apply(qlisttbl_t *t, model_t *m, const op_t *op, int check, const cha
             memmove(m->nm + idx, m->nm + idx + 1, sizeof(int) * (m->n - idx - 1)); memmove(m->vl + idx, m->vl + idx + 1, sizeof(int) * (m->n - idx - 1)); m->n--;
             break;
         }
+        case OP_IOFAIL: {   /* load of a file that cannot be read / save to a path that cannot be written: refused, nothing changes (also not the insert mode) */
+            errno = 0;
+            if (op->k == 0) { ssize_t r = t->load(t, "/nonexistent-dir/none.txt", '=', true); if (check && r != -1) vc_viol("saveload:missing-file", "%s: load of a missing file returned %zd", after, r); }
+            else { bool r = t->save(t, "/nonexistent-dir/none.txt", '=', true); if (check && r) vc_viol("saveload:unwritable-file", "%s: save to an unwritable path returned true", after); }
+            break;
+        }
         case OP_SORT: {
             t->sort(t);
             for (int i = 1; i < m->n; i++) {   /* stable insertion sort on the model */
@@ -225,6 +234,7 @@ static void setup(void) {
     for (int k = 0; k < 4; k++) OPS[NOPS++] = (op_t){OP_REMOVE, k, 0, "qlisttbl_remove"};
     for (int i = 0; i < L; i++) for (int nm = 0; nm < 2; nm++) OPS[NOPS++] = (op_t){OP_REMOVEOBJ, i, nm, "qlisttbl_removeobj"};
     OPS[NOPS++] = (op_t){OP_SORT, 0, 0, "qlisttbl_sort"};
+    OPS[NOPS++] = (op_t){OP_IOFAIL, 0, 0, "qlisttbl_load"}; OPS[NOPS++] = (op_t){OP_IOFAIL, 1, 0, "qlisttbl_save"};
     OPS[NOPS++] = (op_t){OP_CLEAR, 0, 0, "qlisttbl_clear"};
     snprintf(SP.prefix, sizeof SP.prefix, "listtbl:%d:%d:%d:", OPT, L, NV);
     SP.nops = NOPS; SP.label = op_label; SP.transition = transition; SP.initial = initial;
